@@ -24,7 +24,7 @@ RULE = ("case = history of 3..30 steps from {configure(**kw), enter reconfigure(
 ASSUMPTIONS = [
     "client.config.timeout / retries / credentials / context are the documented observable configuration",
     "an unknown setting may be refused with any exception",
-    "engine discovery may be repeated at any time; its datagrams must carry the timeout / retries in force",
+    "engine discovery may be repeated whenever the implementation likes (before every request, say) -- its datagrams must carry the timeout / retries in force -- with one exception taken from the statement's words 'behaves exactly as before entering': if the request issued just before a block was entered needed no discovery, the first request after the block is left needs none either",
 ]
 REQUIRED_CLASSES = {"depth>=2": 0.15, "exceptional_exit": 0.12, "family_switch": 0.20, "bad_setting": 0.10, "v3_request": 0.10}
 
